@@ -24,7 +24,8 @@ def parseNats (s : String) (dropSuffix : Bool) : Option (List Nat) :=
 def flag (c : Char) : Option Bool := if c == '1' then some true else if c == '0' then some false else none
 
 /-- tokens → items; returns the rest after the matching `E` (depth > 0) -/
-partial def parseItems (toks : List String) (depth : Nat) (inReg : Bool) : Except String (List Item × List String) :=
+partial def parseItems (toks : List String) (depth : Nat) (inReg : Bool) (prev : Option (Cfg × List Item) := none) :
+    Except String (List Item × List String) :=
   match toks with
   | [] => if depth == 0 then pure ([], []) else throw "outside-domain: missing E"
   | t :: rest =>
@@ -78,8 +79,18 @@ partial def parseItems (toks : List String) (depth : Nat) (inReg : Bool) : Excep
             let (inner, r) ← parseItems rest (depth + 1) false
             pure (Item.mount p ⟨cs, st⟩ inner, r)
           | _ => throw "outside-domain: flags"
+        | ["D", p] => do
+          -- the same app object as the preceding mount, mounted once more at `p`
+          if inReg then throw "outside-domain: D inside Route()"
+          let some p := fromHex p | throw "outside-domain: path"
+          match prev with
+          | some (scfg, sub) => pure (Item.mount p scfg sub, rest)
+          | none => throw "outside-domain: D without a preceding mount"
         | _ => throw s!"outside-domain: token {t}")
-      let (more, rest'') ← parseItems rest' depth inReg
+      let prev' := match item with
+        | .mount _ scfg sub => some (scfg, sub)
+        | _ => none
+      let (more, rest'') ← parseItems rest' depth inReg prev'
       pure (item :: more, rest'')
 
 def parseTree (s : String) : Except String (List Item) := do
@@ -139,6 +150,7 @@ partial def mountTags (depthM : Nat) (inGroup : Bool) : List Item → List Strin
     (if p.contains 58 then ["param-prefix"] else []) ++ (if p.contains 92 then ["escaped-prefix"] else []) ++
     (if p != toLower p then ["upper-prefix"] else []) ++
     (if trimRight p 47 == [] then ["root-prefix"] else []) ++
+    (match t with | .mount _ _ _ :: _ => ["mount-follows-mount"] | _ => []) ++
     mountTags (depthM + 1) false sub ++ mountTags depthM inGroup t
   | .group _ _ is :: t => mountTags depthM true is ++ mountTags depthM inGroup t
   | _ :: t => mountTags depthM inGroup t
@@ -168,7 +180,9 @@ def handleCase (f : List String) : Except String Verdict := do
     let rg := if resG == "-" then [] else resG.splitOn ","
     let nreq := if reqs == "-" then 0 else (reqs.splitOn ",").length
     if rm.length != nreq || rg.length != nreq then throw "outside-domain: answers do not line up with requests"
-    let spec : Option String := match parseStacks stackM, parseStacks stackG with
+    let spec : Option String :=
+      if stackM == "panic" then some "startup: the mounted composition panics while the group composition serves"
+      else match parseStacks stackM, parseStacks stackG with
       | some tm, some tg => specViolation cfg tm tg rm rg
       | _, _ => some "unparsable-observation"
     let k1 := Known.K1 cfg items
